@@ -5,6 +5,8 @@ package dns
 
 import (
 	"net"
+
+	"github.com/bokysan/socketace/v2/internal/util/enc"
 )
 
 // Accessors for the verification harness (injected by go build -overlay; not part of the repository).
@@ -43,3 +45,11 @@ func VerifUserFrag(c net.Conn) uint32 { return c.(*userConnection).Serializer.Do
 
 // VerifQueueChunk queues one downstream chunk on a server-side connection as Write's loop would.
 func VerifQueueChunk(c net.Conn, data []byte) { c.(*userConnection).out.VerifAddChunk(data) }
+
+// VerifUpstreamMtu evaluates getUpstreamMtu for a domain and an upstream codec.
+func VerifUpstreamMtu(domain string, e enc.Encoder) uint32 {
+	dc := &ClientDnsConnection{}
+	dc.Serializer.Domain = domain
+	dc.Serializer.Upstream.Encoder = e
+	return dc.getUpstreamMtu()
+}
